@@ -30,6 +30,26 @@ macro_rules! check_overshoot {
                 report($ctx, "C20.skip_overshoot", format!("{}: skip({}) over {} items yields an item", $what, n + extra, n));
             }
         }
+        // skipping by as much as an index type can hold, on a fresh and on a partly consumed iterator
+        for taken in 0..2usize {
+            for big in [usize::MAX, usize::MAX - 1, usize::MAX / 2 + 1] {
+                let mut it = $make;
+                for _ in 0..taken {
+                    let _ = it.next();
+                }
+                let got = it.nth(big).is_some();
+                let after = it.next().is_some();
+                let (lo, _) = it.size_hint();
+                let mut it2 = $make;
+                for _ in 0..taken {
+                    let _ = it2.next();
+                }
+                let skipped = it2.skip(big).count();
+                if got || after || lo != 0 || skipped != 0 {
+                    report($ctx, "C20.nth_overshoot", format!("{}: {} items, {} taken from the front, then nth({}): item returned {}, another item afterwards {}, size_hint lower bound {}; skip({}).count() = {}", $what, n, taken, big, got, after, lo, big, skipped));
+                }
+            }
+        }
         // internal iteration (count / last / fold may be overridden) of a fresh and of a partly
         // consumed iterator covers exactly what is left
         {
@@ -57,16 +77,79 @@ macro_rules! check_overshoot {
     }};
 }
 
-/// C19: the value through every serde format we have: JSON text (self-describing, lengths are
-/// ignored, byte strings are arrays of numbers), JSON through `serde_json::Value`, and CBOR
-/// (length-prefixed sequences and maps, native byte strings).
+#[derive(serde_derive::Serialize, serde_derive::Deserialize)]
+#[serde(tag = "kind", bound = "T: serde::Serialize + serde::de::DeserializeOwned")]
+enum Tagged<T> {
+    Item(T),
+}
+#[derive(serde_derive::Serialize, serde_derive::Deserialize)]
+#[serde(untagged, bound = "T: serde::Serialize + serde::de::DeserializeOwned")]
+enum Untagged<T> {
+    Item(T),
+}
+#[derive(serde_derive::Serialize, serde_derive::Deserialize)]
+#[serde(bound = "T: serde::Serialize + serde::de::DeserializeOwned")]
+struct Flat<T> {
+    n: u8,
+    #[serde(flatten)]
+    item: T,
+}
+
+/// C19: the value through every serde route we have: JSON text (self-describing, lengths are
+/// ignored, byte strings are arrays of numbers), JSON through `serde_json::Value`, CBOR
+/// (length-prefixed sequences and maps, native byte strings), CBOR through `ciborium::Value`, and
+/// the value nested in an internally tagged enum, an untagged enum and a flattened struct field
+/// (serde buffers the content there and replays it through its own deserializer) in both formats.
 fn through_serde<T: serde::Serialize + serde::de::DeserializeOwned>(v: &T) -> Vec<(&'static str, Result<T, String>)> {
-    let mut out = vec![];
-    out.push(("JSON", serde_json::to_vec(v).map_err(|e| format!("serialisation failed: {}", e)).and_then(|b| serde_json::from_slice::<T>(&b).map_err(|e| format!("deserialisation failed: {}", e)))));
+    fn json<A: serde::Serialize, B: serde::de::DeserializeOwned>(a: &A) -> Result<B, String> {
+        serde_json::to_vec(a).map_err(|e| format!("serialisation failed: {}", e)).and_then(|b| serde_json::from_slice::<B>(&b).map_err(|e| format!("deserialisation failed: {}", e)))
+    }
+    fn cbor<A: serde::Serialize, B: serde::de::DeserializeOwned>(a: &A) -> Result<B, String> {
+        let mut buf = vec![];
+        ciborium::ser::into_writer(a, &mut buf).map_err(|e| format!("serialisation failed: {}", e)).and_then(|_| ciborium::de::from_reader::<B, _>(&buf[..]).map_err(|e| format!("deserialisation failed: {}", e)))
+    }
+    let mut out: Vec<(&'static str, Result<T, String>)> = vec![];
+    out.push(("JSON", json::<T, T>(v)));
     out.push(("JSON value", serde_json::to_value(v).map_err(|e| format!("serialisation failed: {}", e)).and_then(|b| serde_json::from_value::<T>(b).map_err(|e| format!("deserialisation failed: {}", e)))));
-    let mut buf = vec![];
-    out.push(("CBOR", ciborium::ser::into_writer(v, &mut buf).map_err(|e| format!("serialisation failed: {}", e)).and_then(|_| ciborium::de::from_reader::<T, _>(&buf[..]).map_err(|e| format!("deserialisation failed: {}", e)))));
+    out.push(("CBOR", cbor::<T, T>(v)));
+    // the remaining routes for one value in four (chosen by the value itself)
+    let sel = serde_json::to_vec(v).map(|b| b.iter().fold(b.len() as u64, |h, x| h.wrapping_mul(31).wrapping_add(*x as u64))).unwrap_or(0);
+    if sel % 4 != 0 {
+        return out;
+    }
+    out.push(("CBOR value", ciborium::Value::serialized(v).map_err(|e| format!("serialisation failed: {}", e)).and_then(|x| x.deserialized::<T>().map_err(|e| format!("deserialisation failed: {}", e)))));
+    // wrappers take the value by reference on the way out and own it on the way back
+    #[derive(serde_derive::Serialize)]
+    #[serde(tag = "kind")]
+    enum TaggedRef<'a, T: serde::Serialize> {
+        Item(&'a T),
+    }
+    #[derive(serde_derive::Serialize)]
+    #[serde(untagged)]
+    enum UntaggedRef<'a, T: serde::Serialize> {
+        Item(&'a T),
+    }
+    #[derive(serde_derive::Serialize)]
+    struct FlatRef<'a, T: serde::Serialize> {
+        n: u8,
+        #[serde(flatten)]
+        item: &'a T,
+    }
+    out.push(("JSON, in an internally tagged enum", json::<_, Tagged<T>>(&TaggedRef::Item(v)).map(|Tagged::Item(x)| x)));
+    out.push(("CBOR, in an internally tagged enum", cbor::<_, Tagged<T>>(&TaggedRef::Item(v)).map(|Tagged::Item(x)| x)));
+    out.push(("JSON, in an untagged enum", json::<_, Untagged<T>>(&UntaggedRef::Item(v)).map(|Untagged::Item(x)| x)));
+    out.push(("CBOR, in an untagged enum", cbor::<_, Untagged<T>>(&UntaggedRef::Item(v)).map(|Untagged::Item(x)| x)));
+    out.push(("JSON, flattened into a struct", json::<_, Flat<T>>(&FlatRef { n: 7, item: v }).map(|f| { let _ = f.n; f.item })));
+    out.push(("CBOR, flattened into a struct", cbor::<_, Flat<T>>(&FlatRef { n: 7, item: v }).map(|f| f.item)));
     out
+}
+
+/// C19: `Deserialize::deserialize_in_place` (what derived impls of containing types call) into a
+/// value that has been used before.
+fn in_place<T: serde::Serialize + serde::de::DeserializeOwned>(v: &T, place: &mut T) -> Result<(), String> {
+    let bytes = serde_json::to_vec(v).map_err(|e| format!("serialisation failed: {}", e))?;
+    let mut de = serde_json::Deserializer::from_slice(&bytes);
+    <T as serde::Deserialize>::deserialize_in_place(&mut de, place).map_err(|e| format!("deserialize_in_place failed: {}", e))
 }
 
 fn report(ctx: &mut MonCtx, rule: &str, detail: String) {
@@ -273,6 +356,16 @@ pub fn fasta_set(set: &fasta::RecordSet, ctx: &mut MonCtx) {
         if again != orig || dst.len() != set.len() {
             report(ctx, "C19.set_clone_from", format!("fasta RecordSet::clone_from into a used set: {} records instead of {} / different contents", again.len(), orig.len()));
         }
+        // the same long-lived set as the place of an in-place deserialisation
+        match in_place(set, &mut dst) {
+            Ok(()) => {
+                let again: Vec<RecObs> = (&dst).into_iter().map(|r| crate::drive::fa_obs(&r)).collect();
+                if again != orig || dst.len() != set.len() {
+                    report(ctx, "C19.set_roundtrip", format!("fasta RecordSet deserialised in place into a used set: {} records instead of {} / different contents", again.len(), orig.len()));
+                }
+            }
+            Err(e) => report(ctx, "C19.set_roundtrip", e),
+        }
         ctx.fa_clone_dst = Some(dst);
     }
     if ctx.mon.iters {
@@ -370,17 +463,18 @@ fn seq_lines_history(rec: &fasta::RefRecord, o: &RecObs, ctx: &mut MonCtx) {
             desc.push('f');
             (it.next(), model.pop_front())
         } else if kind == 6 {
-            // nth(k): skips k items, may overshoot the items that are left
-            let k = ctx.rng.below(3) as usize;
+            // nth(k): skips k items, may overshoot the items that are left (now and then by as much
+            // as an index type can hold)
+            let k = if ctx.rng.chance(1, 10) { *ctx.rng.pick(&[usize::MAX, usize::MAX - 1, usize::MAX / 2 + 1, u32::MAX as usize]) } else { ctx.rng.below(3) as usize };
             desc.push_str(&format!("n{}", k));
-            for _ in 0..k {
+            for _ in 0..k.min(model.len()) {
                 model.pop_front();
             }
             (it.nth(k), model.pop_front())
         } else {
-            let k = ctx.rng.below(3) as usize;
+            let k = if ctx.rng.chance(1, 10) { *ctx.rng.pick(&[usize::MAX, usize::MAX - 1, usize::MAX / 2 + 1, u32::MAX as usize]) } else { ctx.rng.below(3) as usize };
             desc.push_str(&format!("N{}", k));
-            for _ in 0..k {
+            for _ in 0..k.min(model.len()) {
                 model.pop_back();
             }
             (it.nth_back(k), model.pop_back())
@@ -523,6 +617,15 @@ pub fn fastq_set(set: &fastq::RecordSet, ctx: &mut MonCtx) {
         let again: Vec<RecObs> = (&dst).into_iter().map(|r| crate::drive::fq_obs(&r)).collect();
         if again != orig || dst.len() != set.len() {
             report(ctx, "C19.set_clone_from", format!("fastq RecordSet::clone_from into a used set: {} records instead of {} / different contents", again.len(), orig.len()));
+        }
+        match in_place(set, &mut dst) {
+            Ok(()) => {
+                let again: Vec<RecObs> = (&dst).into_iter().map(|r| crate::drive::fq_obs(&r)).collect();
+                if again != orig || dst.len() != set.len() {
+                    report(ctx, "C19.set_roundtrip", format!("fastq RecordSet deserialised in place into a used set: {} records instead of {} / different contents", again.len(), orig.len()));
+                }
+            }
+            Err(e) => report(ctx, "C19.set_roundtrip", e),
         }
         ctx.fq_clone_dst = Some(dst);
     }
